@@ -1,17 +1,63 @@
 (* C05 — encoding again without edits gives the same bytes.  Statements only. *)
 From Coq Require Import List Arith NArith ZArith Bool.
 Import ListNotations.
-From Orca Require Import Util Reindex Flat Lowering CheckLow CheckReidx SelfReidx Idem.
+From Orca Require Import Util Reindex Flat Lowering CheckLow CheckReidx SelfReidx Idem Cleared.
 
-(* Instrumentation side: after the first encode every special-mode list is empty (outside D31), the function
-   level lists are cleared, and on such a body the resolution pass of the second encode is the identity: no
-   probe is lowered twice, no flag local is allocated twice. *)
+(* Instrumentation side: after the first encode every special-mode list is empty
+   (C05_first_resolution_clears_every_special_list below), the function level lists are cleared, and on such a
+   body the resolution pass of the second encode is the identity: no probe is lowered twice, no flag local is
+   allocated twice. *)
 Theorem C05_second_resolution_is_identity :
   forall (ty : N) (body : list (fop * flags)) (loc : locals),
     forallb (fun x => no_special (snd x)) body = true ->
     resolve true [] [] ty body loc = (body, loc).
 Proof. exact resolve_idempotent. Qed.
 Print Assumptions C05_second_resolution_is_identity.
+
+(* The resolution pass of the first encode leaves no special-mode list behind -- for every body whose block-alternates
+   sit on block / loop / if / else (all the injection API accepts), every entry / exit code, every plan: an
+   instruction is either planned and cleared, or the opener of a replaced construct (every special mode cleared with
+   its block-alt), or deleted inside a replaced region (every special mode cleared with it). *)
+Theorem C05_first_resolution_clears_every_special_list :
+  forall (entry exit : list fop) (ty : N) (body : list (fop * flags)) (loc : locals),
+    forallb accepted body = true ->
+    forallb (fun x => no_special (snd x)) (fst (resolve true entry exit ty body loc)) = true.
+Proof. exact resolve_clears_special. Qed.
+Print Assumptions C05_first_resolution_clears_every_special_list.
+
+(* Hence, on the mirror of one case, for every plan over all seven modes (nested block-alternates, special probes
+   inside the regions the plan removes or on the replaced opener included): the second resolution is the identity
+   on what the first one left. *)
+Theorem C05_second_resolution_is_identity_after_the_first :
+  forall (c : lcase) fb sp loc2,
+    apply_plan false (c_plan c) (map (fun o => (o, no_flags)) (c_body c)) false = Some (fb, sp) ->
+    balt_sites_ok (c_body c) (c_plan c) = true ->
+    let loc := mkLocals (c_nparams c) (c_numlocals c) (c_groups c) in
+    let r := fst (resolve true (c_entry c) (c_exit c) (c_exit_ty c) fb loc) in
+    forallb (fun x => no_special (snd x)) r = true /\ resolve true [] [] (c_exit_ty c) r loc2 = (r, loc2).
+Proof. exact model_second_resolution_is_identity. Qed.
+Print Assumptions C05_second_resolution_is_identity_after_the_first.
+
+(* D31 was a genuine defect of the pinned tree: a special-mode injection on an instruction that the same plan
+   removes with block-alt (or on the replaced opener) was neither resolved nor cleared; it stayed attached to the
+   IR, "BUG: ... should be resolved already" was logged and a second encode() gave different bytes.  It is repaired
+   ("fix:" commit in /repo: the deleted instruction's special lists are cleared where it is deleted).  The former
+   witness -- a block with a block-alternate and a block-entry probe on the same block, plus a block-exit probe on
+   a block inside it -- now leaves no special list, and resolving again changes nothing: *)
+Example C05_former_D31_witness_holds :
+  let body := [FBlock BtEmpty; FBlock BtEmpty; FConst 1; FDrop; FEnd; FEnd; FEnd] in
+  let plan := [(0%nat, MBlockAlt, [FConst 1001; FDrop]); (0%nat, MBlockEntry, [FConst 1002; FDrop]);
+               (1%nat, MBlockExit, [FConst 1003; FDrop])] in
+  match apply_plan false plan (map (fun o => (o, no_flags)) body) false with
+  | Some (fb, sp) =>
+      sp = true /\ forallb (fun x => no_special (snd x)) fb = false /\
+      let r := fst (resolve true [] [] 0%N fb (mkLocals 0 0 [])) in
+      forallb (fun x => no_special (snd x)) r = true
+      /\ resolve true [] [] 0%N r (mkLocals 0 0 []) = (r, mkLocals 0 0 [])
+      /\ emit r = [FConst 1001; FDrop; FEnd]
+  | None => False
+  end.
+Proof. vm_compute. repeat split; reflexivity. Qed.
 
 (* Index side (partial): the first encode rewrites every reference in place and keeps `recalculate_ids`
    set; the second encode applies the id maps again.  When a map is the identity on its domain every
